@@ -700,25 +700,33 @@ def r08h(ctx, rep, rule="R08h"):
 
 def r08c(ctx, rep):
     facts = ctx["facts"]
-    rep.rule("R08c", "derived operations are built from the primitive ones: Number::modulo is expressed through the "
-             "Rem and Add implementations of &Number (so it inherits their per-representation treatment) and contains no "
-             "representation-specific arithmetic of its own; the owned operator impls delegate to the &Number impls.")
+    rep.rule("R08c", "derived operations are built from the primitive ones: Number::modulo is expressed through the Rem and Add "
+             "implementations of &Number and the comparisons of Number (so it inherits their per-representation treatment) and "
+             "contains no representation-specific arithmetic of its own; the divisor is added to the remainder exactly once, and "
+             "only under a sign test of remainder and divisor — where the signs differ the sum is smaller in magnitude than both, "
+             "whereas an unconditional (r + b) leaves the range of a fixed-width representation and comes back inexact "
+             "((modulo 1 2147483647/1) was 1.0); the owned operator impls delegate to the &Number impls.")
     f = need(rep, "R08c", facts, "marwood::number::Number::modulo")
     if f is not None:
+        from .. import shapes
         cs = [callee(t) for bb, t in f.calls()]
         rems = sum(1 for c in cs if c == BINOPS["rem"])
-        adds = sum(1 for c in cs if c == BINOPS["add"])
+        adds = [(bb, t) for bb, t in f.calls() if callee(t) == BINOPS["add"]]
         own = disc_switches(facts, f, NUMBER)
         rf = region_facts(f, set(range(len(f.blocks))))
-        cmpz = [c for c in cs if c in (EQ, CMP) or "PartialOrd" in c]
+        lo = lossy_ops(rf)
         key = "R08c|modulo|shape"
-        # flooring modulo from truncating remainder needs two remainders and one addition: ((a rem b) + b) rem b
-        if rems == 2 and adds == 1 and not own:
-            rep.ok("R08c", key, "modulo is ((a rem b) + b) rem b over the &Number operators", [f.span])
+        guarded = False
+        if len(adds) == 1:
+            gs = shapes.guard_shapes(f, adds[0][0], None, 4)
+            guarded = any("PartialOrd" in g for g in gs)
+        if rems >= 1 and len(adds) == 1 and not own and not lo and guarded:
+            rep.ok("R08c", key, "modulo is a rem b, plus b under a sign comparison, over the &Number operators", [f.span])
         else:
-            rep.fail("R08c", key, "modulo is no longer ((a rem b) + b) rem b over the &Number operators (rem x%d, add x%d, "
-                     "own representation match: %s, sign comparisons: %d): a sign fix-up written by hand must treat a zero "
-                     "remainder and every representation pair itself" % (rems, adds, bool(own), len(cmpz)), [f.span])
+            rep.fail("R08c", key, "modulo is not (a rem b), plus b once under a sign test, over the &Number operators (rem x%d, add x%d, "
+                     "add guarded by an order comparison: %s, own representation match: %s, float conversions: %d): an unconditional "
+                     "r + b overflows the representation of an integer carried as a rational and answers inexactly; a fix-up written "
+                     "per representation must treat every pair itself" % (rems, len(adds), guarded, bool(own), len(lo)), [f.span])
     for op in ("Add", "Sub", "Mul", "Div", "Rem"):
         owned = facts.fn("<marwood::number::Number as std::ops::%s>::%s" % (op, op.lower()))
         ref = "<&marwood::number::Number as std::ops::%s>::%s" % (op, op.lower())
@@ -1417,3 +1425,42 @@ def r08j(ctx, rep, rule="R08j"):
                 "%s can call Ratio<i32>::checked_div with a zero dividend and a non-zero divisor: gcd(0, i32::MIN) overflows inside it, "
                 "so (/ 0 -2147483648/3) panics instead of returning 0" % f.short, [t["loc"]])
     rep.floor(rule, "calls of Ratio<i32>::checked_div in the library", n, 1)
+
+
+def r08k(ctx, rep, rule="R08k"):
+    """an integer carried as a rational is an integer"""
+    from .. import shapes
+    facts = ctx["facts"]
+    rep.rule(rule, "the carrier does not decide exactness: Ratio<i32> also carries integers (6/3 is stored as 2/1), and for an integer "
+             "the Fixnum arm of every unary operation is exact whatever its size. In the Rational arms of abs, round, floor, ceil, "
+             "truncate, pow, numerator and denominator every conversion to a float is therefore dominated by the false edge of an "
+             "is_integer test of the operand: (abs (/ -2147483648 1)) and (expt (/ 2 1) 40) are exact integers.")
+    n = 0
+    for name in UNOPS:
+        if name == "to_exact":
+            continue
+        fn = need(rep, rule, facts, "marwood::number::Number::" + name)
+        if fn is None:
+            continue
+        arms = number_arms(facts, fn, unary=True)
+        reg = arms.get(("Rational",))
+        if not reg:
+            continue
+        n += 1
+        rf = region_facts(fn, reg)
+        sites = [(bb, "%s as %s" % (frm, to), loc) for ck, frm, to, loc, bb, s_ in rf["casts"] if ck == "IntToFloat"]
+        for c, fa, loc, bb, t in rf["calls"]:
+            if (fa.endswith("::to_f64") or c.endswith("::to_f64")) and not fa.startswith("<f64 "):
+                sites.append((bb, "to_f64", loc))
+        bad = []
+        for bb, what, loc in sites:
+            gs = shapes.guard_shapes(fn, bb, None, 4)
+            if not any(re.search(r"is_integer\(.*\)=F$", g) for g in gs):
+                bad.append((what, loc))
+        key = "%s|%s|Rational" % (rule, name)
+        (rep.ok if not bad else rep.fail)(
+            rule, key, "%s(Rational) converts to a float only where the operand is not an integer (%d conversion site(s))" % (name, len(sites)) if not bad else
+            "%s(Rational) converts to a float (%s) without having excluded an integer-valued operand: an exact integer carried as n/1 "
+            "gets an inexact answer where the same integer as a fixnum gets the exact one" % (name, ", ".join(sorted({b[0] for b in bad}))),
+            [b[1] for b in bad] or [fn.span])
+    rep.floor(rule, "Rational arms of the unary operations", n, 6)
